@@ -77,6 +77,8 @@ int sk_sig_add(uint64_t sig);        /* returns 1 if new */
 typedef void (*sk_release_cb)(void* ptr, size_t size, int kind);
   /* kind 0 free, 1 realloc-old, 2 live-at-end (reported by sk_heap_scan_live) */
 void sk_heap_reset(uint64_t fill_seed);  /* new run: empty arena */
+void sk_heap_reset_stale(void);          /* new run: fresh blocks keep the previous run's bytes */
+void sk_mark_defined(void* p, size_t n); /* MSan builds: treat as initialised; no-op elsewhere */
 void sk_heap_arm(void);                  /* allocations come from the arena */
 void sk_heap_disarm(void);
 int sk_heap_armed(void);
